@@ -91,6 +91,10 @@ void harness(void)
 		if (used_bytes + in_len + 16 <= 4u * RING_W - 13) {
 			PROP(r == (ssize_t)in_len, "write that fits the size contract is never refused");
 		}
+		if (in_q.n == 0 && in_len <= 4u * RING_W - 13) {
+			/* S = 4W-13 is the largest requested size that yields W words: an EMPTY ring takes any chunk up to S */
+			PROP(r == (ssize_t)in_len, "empty ring accepts any single chunk up to the requested size");
+		}
 		if (r == (ssize_t)in_len) {
 			WITNESS_BRANCH("write accepted");
 			PROP(q.n < RING_K + 1, "ghost capacity");
@@ -106,6 +110,9 @@ void harness(void)
 		void *p = qb_rb_chunk_alloc(&ring_rb, in_len);
 		if (used_bytes + in_len + 16 <= 4u * RING_W - 13) {
 			PROP(p != NULL, "alloc that fits the size contract is never refused");
+		}
+		if (in_q.n == 0 && in_len <= 4u * RING_W - 13) {
+			PROP(p != NULL, "empty ring accepts any single alloc up to the requested size");
 		}
 		if (p == NULL) {
 			PROP(errno == EAGAIN, "refused alloc sets EAGAIN");
